@@ -165,6 +165,7 @@ Qed.
 Definition sound_binop (o : pbin) (io : binop) : bool :=
   match o, io with
   | PAdd, Add | PSub, Sub | PMult, Mul | PBitAnd, And | PBitOr, Or | PBitXor, Xor => true
+  | PTrueDiv, _ => true       (* no integer value to be exact about *)
   | _, _ => false
   end.
 Definition sound_cmp (o : pcmp) (c : cond) : bool :=
@@ -175,7 +176,7 @@ Definition sound_cmp (o : pcmp) (c : cond) : bool :=
 (* every table entry that exists is a semantically exact one; integer // goes through a program *)
 Definition sound_tabs (k : lowcfg) : Prop :=
   lc_floordiv k <> [] /\
-  (forall o io, o <> PFloorDiv -> irop_of (lc_binops k) o = Some io -> sound_binop o io = true) /\
+  (forall o io, o <> PFloorDiv -> irop_eff k o = Some io -> sound_binop o io = true) /\
   (forall o c, ircond_of (lc_cmps k) o = Some c -> sound_cmp o c = true).
 
 Definition fd_exact_at (k : lowcfg) (x y : Z) : Prop :=
@@ -212,14 +213,15 @@ Proof.
     destruct (lower k b) as [tb|] eqn:Lb; try discriminate.
     specialize (IHa x ta Fa eq_refl eq_refl). specialize (IHb y tb Fb eq_refl eq_refl).
     pose proof (eval64_in64 _ _ _ Ea) as Hx. pose proof (eval64_in64 _ _ _ Eb) as Hy.
-    assert (G : forall io, o <> PFloorDiv -> irop_of (lc_binops k) o = Some io ->
+    assert (G : forall io, o <> PFloorDiv -> irop_eff k o = Some io ->
                 eval_tree env (TBin io ta tb) = ODone r).
     { intros io Hnf Hio. specialize (Hb o io Hnf Hio). cbn [eval_tree]. rewrite IHa, IHb. cbn [obind].
       destruct o; destruct io; try discriminate; cbn in Eo; inversion Eo; subst.
       - now apply eb_add. - now apply eb_sub. - now apply eb_mul.
       - now apply eb_and. - now apply eb_or. - now apply eb_xor. }
     destruct o.
-    1-3, 5-10: (destruct (irop_of (lc_binops k) _) as [io|] eqn:Hio; try discriminate;
+    11: (exfalso; cbn in Eo; discriminate).
+    1-3, 5-10: (destruct (irop_eff k _) as [io|] eqn:Hio; try discriminate;
                 inversion Hl; subst; apply G; [discriminate | reflexivity]).
     destruct (lc_floordiv k) as [|i p] eqn:Hp; [contradiction|].
     inversion Hl; subst. cbn [eval_tree]. rewrite IHa, IHb. cbn [obind].
